@@ -274,6 +274,77 @@ def shared_attr(director, obj, attr, name):
   return obj
 
 
+def registry_proxies(d):
+  """(ListProxy, registry factory) for the fabric's subscription registries: a dict of lists whose operations are visible steps"""
+  if getattr(d, "_registry_proxies", None) is not None:
+    return d._registry_proxies      # one pair of classes per director: lists are recognised across registries
+  class ListProxy(list):
+    def append(self, x):
+      d.before("registries", "append")
+      return list.append(self, x)
+
+    def __add__(self, other):
+      d.before("registries", "concat_new")
+      return ListProxy(list.__add__(self, other))
+
+    def __setitem__(self, k, v):
+      if isinstance(k, slice):
+        if isinstance(v, ListProxy) or (isinstance(v, (tuple, list)) and not v):
+          d.before("registries", "assign_from")     # from another modelled list (or an empty sequence): one C-level copy
+          v = list(list.__iter__(v)) if isinstance(v, list) else []
+        else:
+          v = list(v)                      # the right-hand side is evaluated before the one C-level replacement
+          d.before("registries", "replace")
+      return list.__setitem__(self, k, v)
+
+    def __iter__(self):
+      i = 0
+      while True:
+        d.before("registries", "iter_next")
+        if i >= list.__len__(self):
+          return
+        yield list.__getitem__(self, i)
+        i += 1
+
+  def registry(name, items=()):
+    class KeysView:
+      def __init__(self, dd):
+        self.dd = dd
+
+      def __contains__(self, k):
+        d.before(name, "contains")
+        return dict.__contains__(self.dd, k)
+
+    class Reg(dict):
+      def __contains__(self, k):
+        d.before(name, "contains")
+        return dict.__contains__(self, k)
+
+      def __getitem__(self, k):
+        d.before(name, "getitem")
+        return dict.__getitem__(self, k)
+
+      def __setitem__(self, k, v):
+        if isinstance(v, list) and not isinstance(v, ListProxy):
+          d.before("registries", "new")          # the list literal the code has just built
+          v = ListProxy(v)
+        d.before(name, "setitem")
+        return dict.__setitem__(self, k, v)
+
+      def get(self, k, default=None):
+        d.before(name, "get_default")
+        return dict.get(self, k, default)
+
+      def keys(self):
+        return KeysView(self)
+    r = Reg()
+    for k, v in items:
+      dict.__setitem__(r, k, ListProxy(v))
+    return r
+  d._registry_proxies = (ListProxy, registry)
+  return ListProxy, registry
+
+
 def auto_proxy(director, sc, real_objects):
   """the attributes the translator bound by itself (sc.auto_bound) get the matching proxies on the real objects {object name: object}"""
   for (oname, attr, mname, kind) in getattr(sc, "auto_bound", []):
@@ -286,6 +357,8 @@ def auto_proxy(director, sc, real_objects):
       setattr(obj, attr, make_event(director, mname, getattr(obj, attr).is_set()))
     elif kind == "attr":
       shared_attr(director, obj, attr, mname)
+    elif kind == "list":
+      setattr(obj, attr, registry_proxies(director)[0](getattr(obj, attr)))
 
 
 def shared_class_attrs(director, module, clsname, names, initial=None):
